@@ -1,7 +1,7 @@
 #!/bin/bash
 # usage: seedrun.sh <patch.diff> CNN [CNN...] : apply patch to /repo, run the checks, revert.
 export GOFLAGS=-mod=mod GOPROXY=off GOSUMDB=off GOTOOLCHAIN=local; unset GOWORK
-patch=$1; shift
+patch=$(readlink -f "$1"); shift
 if ! git -C /repo apply --check "$patch" 2>/dev/null; then echo "PATCH DOES NOT APPLY: $patch"; exit 3; fi
 git -C /repo apply "$patch"
 (cd /repo && go build ./... 2>&1 | head -5)
